@@ -45,7 +45,7 @@ func RunRobust(spec RobustSpec) vx.Out {
 	by.Cmd("REGISTER tc cc#ephemeral", nil)
 	vrt.Quiesce()
 	by.Responses()
-	skip := ""
+	skip, skipCh := "", ""
 	bystander := func(when string) {
 		for _, t := range []string{"ta", "tb", "tc"} {
 			if t == skip {
@@ -54,6 +54,11 @@ func RunRobust(spec RobustSpec) vx.Out {
 			code, b := w.Do("GET", "/lookup?topic="+t)
 			if code != 200 || !strings.Contains(b, `"broadcast_address":"by"`) {
 				bad("C15 another connection's registrations changed", "%s: /lookup?topic=%s answered %d %s", when, t, code, b)
+				return
+			}
+			// ... and its channels are still registered
+			if ch := map[string]string{"ta": "ca", "tc": "cc#ephemeral"}[t]; ch != "" && t != skipCh && !strings.Contains(b, `"`+ch+`"`) {
+				bad("C15 another connection's registrations changed", "%s: /lookup?topic=%s no longer lists channel %s: %s", when, t, ch, b)
 				return
 			}
 		}
@@ -110,6 +115,9 @@ func RunRobust(spec RobustSpec) vx.Out {
 		// endpoints, and then only the object it names
 		if spec.Method == "POST" && (spec.Path == "/topic/delete" || spec.Path == "/topic/tombstone") && strings.HasPrefix(spec.Query, "topic=ta") {
 			skip = "ta"
+		}
+		if spec.Method == "POST" && spec.Path == "/channel/delete" && strings.HasPrefix(spec.Query, "topic=ta") && strings.Contains(spec.Query, "channel=ca") {
+			skipCh = "ta"
 		}
 		bystander("after the request")
 	}
